@@ -171,7 +171,7 @@ var styles = []shadow.StyleD{
 	{Fg: tcell.PaletteColor(255), Bg: tcell.NewRGBColor(255, 255, 255), UL: 4, ULColor: tcell.PaletteColor(255)}, // 10 extreme values
 	{Fg: tcell.Color(1000) | tcell.ColorValid, Bg: tcell.ColorSpecial | 99, URL: "http://h/p?a=1&b=%20;c", URLI: "x-y_z.1"}, // 11 odd colours, url with ; and %
 	{Fg: tcell.NewRGBColor(0, 0, 0), Attrs: tcell.AttrBold | tcell.AttrBlink | tcell.AttrReverse | tcell.AttrDim | tcell.AttrItalic | tcell.AttrStrikeThrough, UL: 3, ULColor: tcell.ColorReset}, // 12 everything
-	{URL: "x", URLI: ""}, // 13
+	{URL: "x$<5>y", URLI: ""}, // 13 application text that looks like a padding specification
 	// 14..21: a base style and seven variants differing from it in exactly one field
 	{Fg: tcell.ColorRed, Bg: tcell.ColorNavy, Attrs: tcell.AttrBold, UL: 3, ULColor: tcell.NewRGBColor(200, 0, 0), URL: "http://u", URLI: "i"},
 	{Fg: tcell.ColorGreen, Bg: tcell.ColorNavy, Attrs: tcell.AttrBold, UL: 3, ULColor: tcell.NewRGBColor(200, 0, 0), URL: "http://u", URLI: "i"},
